@@ -82,18 +82,9 @@ def steer(spec, choices):
     r["styles"].pop("Display", None) if name != "Display" else None
     r["anims"] = [a for a in r["anims"] if a[0] not in (name, "Display")] + [(name, b, e, reveal)]
     r["begin"] = None
-  # value-equal animation steps on two siblings that are active one after the other (equal steps are equal objects for a cache
-  # keyed by value): the first sibling ends at 2 s, the second begins at 3 s, each carries the step (Color, begin 1 s, red)
-  if spec["body"] is not None and choices and choices[0][0] in (None, 0, 1):
-    for n in gen_model.walk(spec["body"]):
-      kids = [k for k in n["kids"] if k["kind"] in ("div", "p", "span")]
-      if len(kids) >= 2:
-        a, b = kids[0], kids[1]
-        a["begin"], a["end"] = None, gen_model.F(2)
-        b["begin"], b["end"] = gen_model.F(3), None
-        for k in (a, b):
-          k["anims"] = [x for x in k["anims"] if x[0] != "Color"] + [("Color", gen_model.F(1), None, RED)]
-        break
+  # value-equal animation steps on two siblings that are active one after the other (gen_model.equal_steps_on_siblings)
+  if choices and choices[0][0] in (None, 0, 1):
+    gen_model.equal_steps_on_siblings(spec, RED)
   return spec
 
 
